@@ -30,6 +30,7 @@ func init() {
 	subcommands["astschema"] = func(repo string, args []string) (string, error) { return walkerFamily(repo, "astschema") }
 	subcommands["walker"] = func(repo string, args []string) (string, error) { return walkerFamily(repo, "walker") }
 	subcommands["walktables"] = func(repo string, args []string) (string, error) { return walkerFamily(repo, "walktables") }
+	subcommands["walktags"] = func(repo string, args []string) (string, error) { return walkerFamily(repo, "walktags") }
 }
 
 // ---------------------------------------------------------------------------------------------- go/ast schema
@@ -1283,12 +1284,8 @@ func walkerFamily(repo, which string) (string, error) {
 			ug = append(ug, fmt.Sprintf("(%d, %d) (* %s.%s *)", l.kindIdx[u[0]], l.fieldIdx[u[1]], u[0], u[1]))
 		}
 		fmt.Fprintf(&sb, "(* fields walked without a nil guard *)\nDefinition gen_unguarded_walks : list (N * N) := [%s].\n", strings.Join(ug, "; "))
-	case "walktables":
-		t, err := l.readTables()
-		if err != nil {
-			return "", err
-		}
-		fmt.Fprintf(&sb, walkerHeader, which, "gogrep nodetag ("+l.gogrepDir+"), ruleguard/runner.go, ruleguard/ir_loader.go, ruleguard/gorule.go")
+	case "walktags":
+		fmt.Fprintf(&sb, walkerHeader, which, "gogrep nodetag ("+l.gogrepDir+")")
 		fmt.Fprintf(&sb, "Definition gen_tag_names : list string := %s.\n", wkCoqStrList(l.tagNames))
 		for _, n := range []string{"Unknown", "NumBuckets", "StmtList", "ExprList", "DeclList", "Node"} {
 			fmt.Fprintf(&sb, "Definition gen_tag_%s : N := %d.\n", n, l.tagIdx[n])
@@ -1300,7 +1297,13 @@ func walkerFamily(repo, which string) (string, error) {
 				rows = append(rows, fmt.Sprintf("  (%d (* %s *), %d (* %s *))", l.kindIdx[kn], kn, l.tagIdx[tg], tg))
 			}
 		}
-		sb.WriteString(strings.Join(rows, ";\n") + "\n].\n\n")
+		sb.WriteString(strings.Join(rows, ";\n") + "\n].\n")
+	case "walktables":
+		t, err := l.readTables()
+		if err != nil {
+			return "", err
+		}
+		fmt.Fprintf(&sb, walkerHeader, which, "ruleguard/runner.go, ruleguard/ir_loader.go, ruleguard/gorule.go")
 		num := func(s string) (int, error) {
 			if s == "nodetag.NumBuckets" {
 				return l.tagIdx["NumBuckets"], nil
